@@ -71,123 +71,104 @@ Definition kind_of (nm : string) : pkind :=
   if nm =? "rr" then KRr else if nm =? "random" then KRandom else if nm =? "least" then KLeast
   else if nm =? "p2c" then KP2c else if nm =? "hrw" then KHrw else KMaglev.
 
-Definition step (s : state) (op : list tok) : state * list tok :=
-  let bad := (s, [TS "badop"]) in
+(** tokens -> operation of [Model.op] (plus the three read-only queries) *)
+Inductive cmd := CmdOp (o : op) | CmdSticky (c : nat) (sid : N) | CmdDump | CmdBad.
+
+Definition parse (op : list tok) : cmd :=
   match op with
   | TS name :: args =>
     if name =? "ohash" then
-      match args with
-      | [TN a; TN h1; TN h2] =>
-        (mkS (s_heap s) (s_cl s) (s_now s) ((zN a, (zN h1, zN h2)) :: s_hashes s) (s_scores s), [])
-      | _ => bad end
+      match args with [TN a; TN h1; TN h2] => CmdOp (OHash (zN a) (zN h1) (zN h2)) | _ => CmdBad end
     else if name =? "oscore" then
       match args with
       | [TN k; TN a; TN wp; TN w; TN bits] =>
-        let wo := if Z.eqb wp 1 then Some w else None in
-        (mkS (s_heap s) (s_cl s) (s_now s) (s_hashes s) (((zN k, zN a, wo), zN bits) :: s_scores s), [])
-      | _ => bad end
+        CmdOp (OScore (zN k) (zN a) (if Z.eqb wp 1 then Some w else None) (zN bits))
+      | _ => CmdBad end
     else if name =? "add" then
       match args with
       | [TN c; TN id; TN a; TN st; TN wp; TN w; TN bk] =>
-        let sticky := if Z.ltb st 0 then None else Some (zN st) in
-        let wo := if Z.eqb wp 1 then Some w else None in
-        let nb := backend_new (zN id) (zN a) sticky wo (Z.eqb bk 1) (s_now s) in
-        let '(s', fresh) := add_backend s (znat c) nb in
-        (s', [tn_bool fresh; tnat (List.length (c_list (cget s' (znat c))))] ++ view s' (znat c))
-      | _ => bad end
+        CmdOp (OAdd (znat c) (zN id) (zN a) (if Z.ltb st 0 then None else Some (zN st))
+                    (if Z.eqb wp 1 then Some w else None) (Z.eqb bk 1))
+      | _ => CmdBad end
     else if name =? "remove" then
-      match args with
-      | [TN c; TN a] =>
-        let '(s', ids) := remove_backend s (znat c) (zN a) in
-        (s', [tnat (List.length ids)] ++ map tN ids ++ view s' (znat c))
-      | _ => bad end
+      match args with [TN c; TN a] => CmdOp (ORemove (znat c) (zN a)) | _ => CmdBad end
     else if name =? "policy" then
       match args with
       | [TN c; TS k; TN m; TN size] =>
-        let s' := set_policy s (znat c) (kind_of k) (if Z.eqb m 1 then MReq else MConn) (zN size) in
-        (s', view s' (znat c))
-      | _ => bad end
+        CmdOp (OPolicy (znat c) (kind_of k) (if Z.eqb m 1 then MReq else MConn) (zN size))
+      | _ => CmdBad end
     else if name =? "closing" then
-      match args with
-      | [TN h] => (on_handle s (znat h) (fun b => set_status b Closing), [])
-      | _ => bad end
+      match args with [TN h] => CmdOp (OClosing (znat h)) | _ => CmdBad end
     else if name =? "health" then
       match args with
-      | [TN c; TN a; TN ok; TN thr] =>
-        match find_backend s (znat c) (zN a) with
-        | Some h =>
-          let '(b', tr) := if Z.eqb ok 1 then record_success (hget (s_heap s) h) (zN thr)
-                           else record_failure (hget (s_heap s) h) (zN thr) in
-          (with_heap s (hset (s_heap s) h b'), [tn_bool tr; tn_bool (b_healthy b')])
-        | None => (s, [])
-        end
-      | _ => bad end
+      | [TN c; TN a; TN ok; TN thr] => CmdOp (OHealth (znat c) (zN a) (Z.eqb ok 1) (zN thr))
+      | _ => CmdBad end
     else if name =? "health_reset" then
-      match args with
-      | [TN c] =>
-        (fold_left (fun s0 h => on_handle s0 h (fun b => set_health b true 0 0)) (c_list (cget s (znat c))) s, [])
-      | _ => bad end
+      match args with [TN c] => CmdOp (OHealthReset (znat c)) | _ => CmdBad end
     else if name =? "fail" then
-      match args with
-      | [TN h; TN w] =>
-        let b := hget (s_heap s) (znat h) in
-        let r' := retry_fail (b_retry b) (s_now s) (zN w) in
-        let started := can_try (b_retry b) (s_now s) in
-        (on_handle s (znat h) (fun b => set_retry b r'), [tn_bool started; tN (r_tries r')])
-      | _ => bad end
+      match args with [TN h; TN w] => CmdOp (OFail (znat h) (zN w)) | _ => CmdBad end
     else if name =? "succeed" then
-      match args with
-      | [TN h] => (on_handle s (znat h) (fun b => set_retry b (retry_succeed (b_retry b) (s_now s))), [])
-      | _ => bad end
+      match args with [TN h] => CmdOp (OSucceed (znat h)) | _ => CmdBad end
     else if name =? "force" then
-      match args with
-      | [TN h; TN t; TN w] =>
-        (on_handle s (znat h) (fun b => set_retry b (mkR (zN t) (r_max (b_retry b)) (s_now s) (zN w))), [])
-      | _ => bad end
+      match args with [TN h; TN t; TN w] => CmdOp (OForce (znat h) (zN t) (zN w)) | _ => CmdBad end
     else if name =? "advance" then
-      match args with
-      | [TN d] => (mkS (s_heap s) (s_cl s) (s_now s + zN d)%N (s_hashes s) (s_scores s), [])
-      | _ => bad end
+      match args with [TN d] => CmdOp (OAdvance (zN d)) | _ => CmdBad end
     else if name =? "inc" then
-      match args with
-      | [TN h] =>
-        let '(b', r) := inc_connections (hget (s_heap s) (znat h)) in
-        (on_handle s (znat h) (fun _ => b'), [match r with Some n => tN n | None => TS "none" end])
-      | _ => bad end
+      match args with [TN h] => CmdOp (OInc (znat h)) | _ => CmdBad end
     else if name =? "dec" then
-      match args with
-      | [TN h] =>
-        let '(b', r) := dec_connections (hget (s_heap s) (znat h)) in
-        (on_handle s (znat h) (fun _ => b'), [match r with Some n => tN n | None => TS "none" end])
-      | _ => bad end
+      match args with [TN h] => CmdOp (ODec (znat h)) | _ => CmdBad end
     else if name =? "close" then
-      match args with
-      | [TN c; TN a] =>
-        match find_backend s (znat c) (zN a) with
-        | Some h => (on_handle s h (fun b => fst (dec_connections b)), [tnat h])
-        | None => (s, [TS "none"])
-        end
-      | _ => bad end
+      match args with [TN c; TN a] => CmdOp (OClose (znat c) (zN a)) | _ => CmdBad end
     else if name =? "reqs" then
-      match args with
-      | [TN h; TN n] => (on_handle s (znat h) (fun b => set_reqs b (zN n)), [])
-      | _ => bad end
+      match args with [TN h; TN n] => CmdOp (OReqs (znat h) (zN n)) | _ => CmdBad end
     else if name =? "select" then
       match args with
-      | [TN c; TN k] =>
-        let key := if Z.ltb k 0 then None else Some (zN k) in
-        let cands := candidates s (c_list (cget s (znat c))) in
-        let '(s', r) := select s (znat c) key in
-        (s', [tnat (List.length cands)] ++ map tnat cands ++ pick_toks (c_lb (cget s (znat c))) r ++ view s' (znat c))
-      | _ => bad end
+      | [TN c; TN k] => CmdOp (OSelect (znat c) (if Z.ltb k 0 then None else Some (zN k)))
+      | _ => CmdBad end
     else if name =? "sticky" then
-      match args with
-      | [TN c; TN sid] =>
-        (s, [match find_sticky s (znat c) (zN sid) with Some h => tnat h | None => TS "none" end])
-      | _ => bad end
-    else if name =? "dump" then (s, dump s)
-    else bad
-  | _ => bad
+      match args with [TN c; TN sid] => CmdSticky (znat c) (zN sid) | _ => CmdBad end
+    else if name =? "dump" then CmdDump
+    else CmdBad
+  | _ => CmdBad
+  end.
+
+Definition optN_tok (r : option N) : tok := match r with Some n => tN n | None => TS "none" end.
+
+(** what the driver prints for an operation: computed from the state before
+    and the state [apply_op] produces *)
+Definition observe (s : state) (o : op) (s' : state) : list tok :=
+  match o with
+  | OAdd c _ _ _ _ _ =>
+    [tn_bool (Nat.ltb (List.length (s_heap s)) (List.length (s_heap s')));
+     tnat (List.length (c_list (cget s' c)))] ++ view s' c
+  | ORemove c a =>
+    let ids := snd (remove_backend s c a) in [tnat (List.length ids)] ++ map tN ids ++ view s' c
+  | OPolicy c _ _ _ => view s' c
+  | OHealth c a ok thr =>
+    match find_backend s c a with
+    | Some h =>
+      let b := hget (s_heap s) h in
+      [tn_bool (snd (if ok then record_success b thr else record_failure b thr));
+       tn_bool (b_healthy (hget (s_heap s') h))]
+    | None => []
+    end
+  | OFail h w => [tn_bool (can_try (b_retry (hget (s_heap s) h)) (s_now s)); tN (r_tries (b_retry (hget (s_heap s') h)))]
+  | OInc h => [optN_tok (snd (inc_connections (hget (s_heap s) h)))]
+  | ODec h => [optN_tok (snd (dec_connections (hget (s_heap s) h)))]
+  | OClose c a => [match find_backend s c a with Some h => tnat h | None => TS "none" end]
+  | OSelect c key =>
+    let cands := candidates s (c_list (cget s c)) in
+    [tnat (List.length cands)] ++ map tnat cands
+      ++ pick_toks (c_lb (cget s c)) (snd (select s c key)) ++ view s' c
+  | _ => []
+  end.
+
+Definition step (s : state) (t : list tok) : state * list tok :=
+  match parse t with
+  | CmdOp o => let s' := apply_op s o in (s', observe s o s')
+  | CmdSticky c sid => (s, [match find_sticky s c sid with Some h => tnat h | None => TS "none" end])
+  | CmdDump => (s, dump s)
+  | CmdBad => (s, [TS "badop"])
   end.
 
 Fixpoint run_from (s : state) (ops : list (list tok)) : list (list tok) :=
